@@ -32,7 +32,7 @@ From stdpp Require Import gmap list numbers.
 From Coq Require Import ZArith NArith.
 From Verif Require Import Tx.Store Tx.Ledger Tx.Hist Tx.Inv Tx.InvRemove Tx.Publish Tx.PublishCode
      Tx.PublishProofs Tx.PublishResend.
-From Verif Require Tx.Kahn Tx.KahnProofs.
+From Verif Require Tx.Kahn Tx.KahnProofs Tx.RefineAll.
 Local Open Scope Z_scope.
 
 (** The code has the shape the model transcribes: the transaction is recorded
@@ -170,6 +170,27 @@ Proof.
   - intros pi1 pi2 answers. exact (resend_after_history Href code_cfg U h pi1 pi2 answers Hwf Hc).
 Qed.
 Print Assumptions C20_over_histories.
+
+(** ... and that refinement is a closed theorem ([RefineAll.refinement]: every
+    event of a chain-consistent history preserves the invariant), so: after
+    EVERY chain-consistent wallet history, a rejected fresh transaction leaves
+    balances, spendable set and unconfirmed set as they were, and a
+    re-broadcast offers exactly the unconfirmed transactions, each once,
+    parents first. *)
+Theorem C20_after_every_history :
+  forall U h t, wf_universe U = true -> chain_consistent U h = true ->
+  event_ok U (fs (spec_run U h)) (Seen t) = true -> fresh U (fs (spec_run U h)) t = true ->
+  (exists s', publish code_cfg U t AReject true (st (run U h)) = (PError, s') /\
+              Inv U s' (fs (spec_run U h)) /\
+              same_observables U (st (run U h)) s' (fs (spec_run U h))) /\
+  (forall pi1 pi2 answers,
+     pi1 ≡ₚ unmined_set U (st (run U h)) -> pi2 ≡ₚ unmined_hashes (st (run U h)) ->
+     exists l rs s', resend code_cfg U pi1 pi2 answers (st (run U h)) = Some (l, rs, s') /\
+       l ≡ₚ elements (f_unconf (fs (spec_run U h))) /\ NoDup l /\
+       (forall p c, p ∈ f_unconf (fs (spec_run U h)) -> c ∈ f_unconf (fs (spec_run U h)) ->
+                    spends_output_of U c p = true -> KahnProofs.before p c l)).
+Proof. exact (C20_over_histories RefineAll.refinement). Qed.
+Print Assumptions C20_after_every_history.
 
 (* ------------------------------------------------------------------ *)
 (** Non-vacuity.  Universe: 1 = a confirmed payment to the wallet (100000);
